@@ -1,6 +1,6 @@
 #!/bin/sh
-# usage: demo.sh [built e2fsprogs tree, default /repo]; exit 0 = correct, 1 = i_blocks overflow mishandled
+# usage: demo.sh [built e2fsprogs tree, default /repo] [source tree when built out of tree]; exit 0 = correct, 1 = i_blocks overflow mishandled
 T=${1:-/repo}
 d=$(mktemp -d); trap 'rm -rf $d' EXIT
-gcc -I$T/lib -o $d/demo $(dirname $0)/demo.c $T/lib/libext2fs.a $T/lib/libcom_err.a -lpthread || exit 2
+gcc -I$T/lib ${2:+-I$2/lib} -o $d/demo $(dirname $0)/demo.c $T/lib/libext2fs.a $T/lib/libcom_err.a -lpthread || exit 2
 $d/demo
